@@ -33,6 +33,7 @@ macro_rules! dispatch {
             "C14" => pbt::$f::<props::c14::C14>($($args),*),
             "C15" => pbt::$f::<props::c15::C15>($($args),*),
             "C16" => pbt::$f::<props::c16::C16>($($args),*),
+            "C08" => pbt::$f::<props::c08::C08>($($args),*),
             other => {
                 eprintln!("unknown property {}", other);
                 std::process::exit(2);
